@@ -1093,6 +1093,16 @@ class AttrParser(BaseParser):
                 self.pos,
             )
 
+        try:
+            element_type.compile_time_size
+        except NotImplementedError:
+            # No packed representation (f80, f128)
+            self.raise_error(
+                f"dense arrays of element type {element_type} are not supported",
+                pos,
+                self.pos,
+            )
+
         # Empty array
         if self.parse_optional_punctuation(">"):
             return DenseArrayBase.from_list(element_type, [])
@@ -1110,7 +1120,13 @@ class AttrParser(BaseParser):
                 self.Delimiter.NONE,
                 lambda: self.parse_float(),
             )
-            res = DenseArrayBase.from_list(element_type, values)
+            try:
+                res = DenseArrayBase.from_list(element_type, values)
+            except (ValueError, OverflowError, struct.error) as e:
+                # A value that the element type cannot represent
+                self.raise_error(
+                    f"invalid dense array of {element_type}: {e}", pos, self.pos
+                )
 
         self.parse_characters(">", " in dense array")
 
